@@ -312,6 +312,19 @@ class IncludeHandler(Handler):
         self.slug_fileid_mapping: Dict[str, FileId] = {
             key.without_known_suffix: key for key in self.pages
         }
+        # The include directives currently being expanded, with the page each one pulls
+        # in. The file stack cannot answer "is this page already being expanded?" for
+        # pages generated from YAML: their root names the YAML file, not the page.
+        self.expanding: List[Tuple[n.Node, FileId]] = []
+        self.page_key: Optional[FileId] = None
+
+    def enter_page(self, fileid_stack: FileIdStack, page: Page) -> None:
+        self.expanding = []
+        self.page_key = fileid_stack.root
+
+    def exit_node(self, fileid_stack: FileIdStack, node: n.Node) -> None:
+        if self.expanding and self.expanding[-1][0] is node:
+            self.expanding.pop()
 
     @staticmethod
     def is_bound(node: n.Node, search_text: Optional[str]) -> bool:
@@ -403,7 +416,11 @@ class IncludeHandler(Handler):
                     )
                 return
 
-        if include_fileid in fileid_stack:
+        if (
+            include_fileid in fileid_stack
+            or include_fileid == self.page_key
+            or any(fileid == include_fileid for _, fileid in self.expanding)
+        ):
             # This file is already being expanded further up: expanding it again would never end.
             self.context.diagnostics[fileid_stack.current].append(
                 InvalidInclude(
@@ -463,6 +480,7 @@ class IncludeHandler(Handler):
             if isinstance(child, n.Directive) and child.name == "replacement"
         ]
         node.children.extend(deep_copy_children)
+        self.expanding.append((node, include_fileid))
 
 
 class NamedReferenceHandlerPass1(Handler):
